@@ -7,6 +7,7 @@ mod c16;
 mod c17;
 mod c18;
 mod c19;
+mod c20;
 mod he;
 mod project;
 mod psets;
@@ -70,6 +71,7 @@ fn main() {
         "c17" => c17::main(&args[2..]),
         "c18" => c18::main(&args[2..]),
         "c19" => c19::main(&args[2..]),
+        "c20" => c20::main(&args[2..]),
         "c13" => c13::main(&args[2..]),
         "c09" => c09::main(&args[2..]),
         "c11" => c11::main(&args[2..]),
